@@ -68,6 +68,7 @@ Inductive outcome :=
 | OValue.                  (* ValueError *)
 
 Definition zmem (x : Z) (l : list Z) : bool := existsb (Z.eqb x) l.
+Definition zsum (l : list Z) : Z := fold_right Z.add 0 l.
 
 (* aioquic.buffer.size_uint_var; None = ValueError (value >= 2^62) *)
 Definition size_uint_var (v : Z) : option Z :=
